@@ -5,6 +5,8 @@ CONSTANTS
   VaryBase = FALSE
   MaxTests = 3
   RichCapture = FALSE
+  MaxSteps = 0
+  LifeWrites = {}
 INVARIANT C14_LoggerRestored
 INVARIANT C14_CapturedDuring
 INVARIANT C14_TracebackFails
